@@ -207,6 +207,7 @@ type c05Res struct {
 	gone      bool   // deleted from the API; the uid never comes back
 
 	inCache      bool
+	everAvail    bool // was Available in the cache at some point (only such a reservation can ever have been nominated)
 	cacheAvail   bool // the object last given to the cache is Available on a node
 	cacheTermin  bool // the object last given to the cache carries a deletionTimestamp
 	pods         map[types.UID]c05Req
@@ -344,6 +345,7 @@ func TestVerifC05CacheHistory(t *testing.T) {
 				r.pods = map[types.UID]c05Req{}
 			}
 			r.cacheAvail = o.Status.NodeName != "" && o.Status.Phase == schedulingv1alpha1.ReservationAvailable
+			r.everAvail = r.everAvail || r.cacheAvail
 			r.cacheTermin = o.DeletionTimestamp != nil
 			if len(r.pods) > 0 && (!r.cacheAvail || r.allocOnce) {
 				r.unavailWithP = true
@@ -672,15 +674,16 @@ func TestVerifC05CacheHistory(t *testing.T) {
 			}
 			return cand[rapid.IntRange(0, len(cand)-1).Draw(t, "pod")]
 		}
-		// target of an assignment: mostly a reservation that is in the cache, sometimes one that is not (ghost)
+		// target of an assignment: a reservation in the cache that is or was Available (it may have changed since the
+		// nomination), sometimes one that is not in the cache at all (ghost)
 		pickTarget := func(t *rapid.T) (types.UID, string, metav1.Object) {
 			var r *c05Res
-			if rapid.IntRange(0, 9).Draw(t, "ghostTarget") > 0 {
+			if rapid.IntRange(0, 14).Draw(t, "ghostTarget") > 0 {
 				if rapid.IntRange(0, 3).Draw(t, "preferAvailable") > 0 {
 					r = pickRes(t, func(r *c05Res) bool { return r.inCache && r.cacheAvail })
 				}
 				if r == nil {
-					r = pickRes(t, func(r *c05Res) bool { return r.inCache })
+					r = pickRes(t, func(r *c05Res) bool { return r.inCache && r.everAvail })
 				}
 			}
 			if r == nil {
@@ -884,7 +887,7 @@ func TestVerifC05CacheHistory(t *testing.T) {
 			{"globalFlush", 3, func() bool { return hasRes(func(r *c05Res) bool { return r.pendingDel != nil }) }, func(t *rapid.T) {
 				flushGlobal(pickRes(t, func(r *c05Res) bool { return r.pendingDel != nil }))
 			}},
-			{"podAssume", 6, func() bool { return len(pods) < 8 }, func(t *rapid.T) {
+			{"podAssume", 6, func() bool { return len(pods) < 10 && hasRes(func(r *c05Res) bool { return r.inCache && r.everAvail }) }, func(t *rapid.T) {
 				p := newPod(t)
 				uid, _, _ := pickTarget(t)
 				err := cache.assumePod(uid, p.obj)
@@ -932,7 +935,7 @@ func TestVerifC05CacheHistory(t *testing.T) {
 				logf("pod update %s bound to %s with reservation %s", p.uid, nw.Spec.NodeName, p.assumedOn)
 				p.assumedOn = ""
 			}},
-			{"podAddBound", 4, func() bool { return len(pods) < 8 }, func(t *rapid.T) {
+			{"podAddBound", 4, func() bool { return len(pods) < 10 && hasRes(func(r *c05Res) bool { return r.inCache && r.everAvail }) }, func(t *rapid.T) {
 				p := newPod(t)
 				uid, node, robj := pickTarget(t)
 				if node == "" {
